@@ -98,6 +98,7 @@ func RunC12(c *Ctx) {
 		c.Mark("C12 "+cs.Family, cs.Input)
 		check(cs)
 	}
+	workload.W1R(sink)
 	nullVariants(sink)
 	workload.W1(c.Thorough(), func(cs *h.Case) {
 		if cs.P[0] < workload.TopLevelSeeds() {
@@ -388,6 +389,7 @@ func RunC13(c *Ctx) {
 			}
 		}
 	}
+	workload.W1R(sink)
 	nullVariants(sink)
 	workload.W1(c.Thorough(), sink)
 	n := 300000
